@@ -26,6 +26,11 @@ def run(tier):
             f"{len(progs)} programs: all binary operators over leaf pairs, unary, projection, cond:value, nested "
             f"(precedence/associativity) and DAG reuse; optimize={optimize}; inputs: all int32 (SMT)",
             cr.known, opts={"optimize": optimize})
+    examples = gen.repo_example_programs()
+    if examples:
+        cr.bounded_check(run_programs, "repo-example-programs", examples,
+                         f"{len(examples)} stateless programs of the repository's own example_programs/ directory (read from the working tree): every named result and every entity "
+                         "condition against S3, all int32 inputs (SMT)", cr.known, opts={"optimize": True}, skip_rejected=True)
     from bounded import pipeline
     from bounded.contract_enum import run_contract_enum
     from contracts import c02
